@@ -45,7 +45,17 @@ impl Family for Ltd {
     fn gen(&self, r: &mut Rng, _idx: u64) -> String {
         let (lo, hi, _ts) = gen_range(r);
         // current state: consistent (tick = ti(price)), on a bound, or the shifted state after a downward crossing
-        let (tick, price) = match r.below(8) {
+        let inside = |r: &mut Rng, t: i32| -> (i32, u128) {
+            // a price strictly inside tick t
+            let t = t.clamp(MIN_TICK, MAX_TICK - 1);
+            let (a, bb) = (sqrt_price_from_tick_index(t), sqrt_price_from_tick_index(t + 1));
+            (t, a + 1 + r.next128() % (bb - a - 1).max(1))
+        };
+        let (tick, price) = match r.below(12) {
+            8 => inside(r, hi),
+            9 => inside(r, lo),
+            10 => inside(r, lo - 1),
+            11 => inside(r, hi - 1),
             0 => (lo, sqrt_price_from_tick_index(lo)),
             1 => (hi, sqrt_price_from_tick_index(hi)),
             2 => (lo - 1, sqrt_price_from_tick_index(lo)), // shifted
